@@ -141,6 +141,9 @@ void apply_op_m(view_t<D>& cur, op_t const& o, any_view& out) {
 		if constexpr(D >= 2) { put<D>(out, norm(~rcv<M>(cur))); } else { throw unsupported{"tilde D<2"}; }
 	} else if(n == "partitioned") {
 		if constexpr(D < MAXD) { put<D + 1>(out, norm(rcv<M>(cur).partitioned(a[0]))); } else { throw unsupported{"dim"}; }
+	} else if(n == "tiled_q") {
+		if constexpr(D < MAXD) { put<D + 1>(out, norm(rcv<M>(cur).tiled(a[0]).quotient)); } else { throw unsupported{"dim"}; }
+	} else if(n == "tiled_r") { put<D>(out, norm(rcv<M>(cur).tiled(a[0]).remainder));
 	} else if(n == "chunked") {
 		if constexpr(D < MAXD) { put<D + 1>(out, norm(rcv<M>(cur).chunked(a[0]))); } else { throw unsupported{"dim"}; }
 	} else if(n == "broadcast") {
